@@ -108,7 +108,7 @@ def ansOf : Except String KeyAns → String
   `Model/C02RxParse`): `FindSubmatchIndex(line)` of `fastregex.CompileEx(pattern, posix)` and the wrapper's
   name table (`idx:name` pairs by index); `posix = 1`: POSIX syntax and leftmost-longest (`findSubmatchIndexL`);
   `unmodelled` outside the fragment (non-ASCII, nullable loop bodies, flags, …);
-* `rxkey <pattern> <line> <key>` – `{key}` evaluated by the real extractor with the real regex matcher, the
+* `rxkey <pattern> <line> <key>` (`rxkeyp`: the same under `--posix`, leftmost-longest) – `{key}` evaluated by the real extractor with the real regex matcher, the
   model side computing everything from the pattern text: parser, leftmost-first matcher, name table, `GetKey`;
 * `tflush <batch> <buffer> <flushms> <pattern> <chunks> <lines>` – the time-flush loop as read from the source, on
   the slice-level machine (`Model/C02Batch`: backing arrays, `append` in place, `make`), with the timer oracle the
@@ -214,23 +214,6 @@ def handle : List String → String
           let ns := if tbl.isEmpty then "." else ",".intercalate (tbl.map fun e => s!"{e.2}:{Hex.enc e.1}")
           s!"ok {if ix.isEmpty then "." else ",".intercalate (ix.map toString)} {ns}"
     | _, _ => "bad-args"
-  | ["rxkey", p, l, key] =>
-    match Hex.dec p, Hex.dec l, Hex.dec key with
-    | some pat, some line, some k =>
-      if line.any (· ≥ 0x80) then "unmodelled non-ascii"
-      else match Rx.parse pat with
-        | none => "unmodelled syntax"
-        | some pr =>
-          let indices := Rx.findSubmatchIndex line pr.re pr.ng
-          if indices.isEmpty then "ok nomatch"
-          else
-            let c : MatchCtx := ⟨line, indices, Rare.C16.regexNameTable pr.subexpNames, ascii "s0", 1⟩
-            match atoi k with
-            | some i => match getMatch line indices i with
-              | .ok b => s!"ok {Hex.enc b}"
-              | .error _ => "panic"
-            | none => ansOf (getKey c k)
-    | _, _, _ => "bad-args"
   | ["tflush", bs, _, _, p, chunks, ls] =>
     match bs.toNat?, Hex.dec p, decHexList ls with
     | some batch, some pat, some lines =>
@@ -288,6 +271,26 @@ def handle : List String → String
           let sum := ms.foldl (fun acc ix => (acc * 31 + digest ix) % 1000000007) 0
           let perBlock := Gen.C12.poolSize g / (2 * g + 2)
           s!"ok stable=1 n={n} crossed={if n > perBlock then 1 else 0} sum={sum}"
+    | _, _, _ => "bad-args"
+  | [op, p, l, key] =>
+    if op != "rxkey" && op != "rxkeyp" then "bad-op" else
+    let px := op == "rxkeyp"
+    match Hex.dec p, Hex.dec l, Hex.dec key with
+    | some pat, some line, some k =>
+      if line.any (· ≥ 0x80) then "unmodelled non-ascii"
+      else match Rx.parseEx px pat with
+        | none => "unmodelled syntax"
+        | some pr =>
+          if px && totalWork line pr.re > 400000 then "unmodelled paths" else
+          let indices := if px then Rx.findSubmatchIndexL line pr.re pr.ng else Rx.findSubmatchIndex line pr.re pr.ng
+          if indices.isEmpty then "ok nomatch"
+          else
+            let c : MatchCtx := ⟨line, indices, Rare.C16.regexNameTable pr.subexpNames, ascii "s0", 1⟩
+            match atoi k with
+            | some i => match getMatch line indices i with
+              | .ok b => s!"ok {Hex.enc b}"
+              | .error _ => "panic"
+            | none => ansOf (getKey c k)
     | _, _, _ => "bad-args"
   | _ => "bad-op"
 
